@@ -107,6 +107,10 @@ Definition with_reg (r : ent) (p : list nat) : ent :=
   {| euid := euid r; ekind := ekind r; ews := ews r; ecls := ecls r; epar := epar r; ech := ech r; epgs := epgs r;
      eprops := p; etype := etype r; ereg := true |}.
 
+Definition with_props (r : ent) (p : list nat) : ent :=
+  {| euid := euid r; ekind := ekind r; ews := ews r; ecls := ecls r; epar := epar r; ech := ech r; epgs := epgs r;
+     eprops := p; etype := etype r; ereg := ereg r |}.
+
 Definition blank (u : nat) (k : kind) (ws cls par ty : nat) : ent :=
   {| euid := u; ekind := k; ews := ws; ecls := cls; epar := par; ech := []; epgs := []; eprops := []; etype := ty; ereg := false |}.
 
@@ -324,6 +328,31 @@ Definition sweep (w : st) (ws : nat) (k : kind) : st :=
   then set_flat w1 ws (filter (fun p => negb (Nat.eqb (fst p) (kind_idx k) && memb (snd p) deadkeys)) (flat w1 ws))
   else w1.
 
+(* ws.remove_entity(object) -> remove_recursively: `for child in list(entity.children): self.remove_entity(child)`.
+   A data child: ObjectBase.remove_children([d]) = remove_data_from_groups(d) over a snapshot of the groups
+   (PropertyGroup.remove_properties: nothing when _properties is None; the group is deleted when it becomes empty),
+   then _children.remove(d); H5Writer.remove_entity deletes its flat node.  A property-group child is taken off both lists. *)
+Definition drop_child (w : st) (o x : nat) : st :=
+  upd w o (fun r => with_ch r (remove_one x (ech r)) (remove_one x (epgs r))).
+
+Definition scrub_groups (w : st) (o u : nat) : st :=
+  fold_left (fun w g =>
+               match eprops (E w g) with
+               | [] => w
+               | l => let ps := filter (fun x => negb (Nat.eqb x u)) l in
+                      let w1 := upd w g (fun r => with_props r ps) in
+                      match ps with [] => drop_child w1 o g | _ => w1 end
+               end) (epgs (E w o)) w.
+
+Definition clear_children (w : st) (o : nat) : st :=
+  fold_left (fun w x =>
+               if kind_eqb (ekind (E w x)) KPG then drop_child w o x
+               else
+                 let w1 := drop_child (scrub_groups w o (euid (E w x))) o x in
+                 set_flat w1 (ews (E w o))
+                   (filter (fun q => negb (Nat.eqb (fst q) (kind_idx KData) && Nat.eqb (snd q) (euid (E w x)))) (flat w1 (ews (E w o)))))
+            (ech (E w o)) w.
+
 Definition step (c : cfg) (w : st) (a : op) : st * outcome :=
   match a with
   | OCreate ws isobj parent u =>
@@ -348,12 +377,15 @@ Definition step (c : cfg) (w : st) (a : op) : st * outcome :=
   | OCopy e target =>
       if Nat.ltb e (n w) && alive w e && Nat.ltb target (n w) && alive w target then do_copy c w e target else (w, BadOp)
   | ORemove e =>
-      (* ws.remove_entity of a childless entity: detach, delete the flat node, collect(), sweep the dead types *)
-      if attached w e && alive w e && negb (Nat.eqb e 1) && negb (Nat.eqb e 3) && (match ech (E w e) with [] => true | _ => false end)
+      (* ws.remove_entity of a childless group / data, or of an object with its data and property groups:
+         children first, then detach, delete the flat node, collect(), sweep the dead types *)
+      if attached w e && alive w e && negb (Nat.eqb e 1) && negb (Nat.eqb e 3)
+         && (kind_eqb (ekind (E w e)) KObject || match ech (E w e) with [] => true | _ => false end)
          && kidx_storable (ekind (E w e)) then
         let p := epar (E w e) in
         let ws := ews (E w e) in
-        let w1 := upd w p (fun r => with_ch r (remove_one e (ech r)) (epgs r)) in
+        let w0 := if kind_eqb (ekind (E w e)) KObject then clear_children w e else w in
+        let w1 := upd w0 p (fun r => with_ch r (remove_one e (ech r)) (epgs r)) in
         let w2 := set_flat w1 ws (filter (fun q => negb (Nat.eqb (fst q) (kind_idx (ekind (E w e))) && Nat.eqb (snd q) (euid (E w e)))) (flat w1 ws)) in
         (sweep w2 ws KType, Ok)
       else (w, BadOp)
